@@ -1304,6 +1304,13 @@ class Normaliser:
         i = 0
         while i < len(body):
             st = body[i]
+            # `self.h(...)` as the very last statement of a function whose helper only has bare returns is a tail call too (both return None)
+            if isinstance(st, ast.Expr) and isinstance(st.value, ast.Call) and body is host.body and i == len(body) - 1 \
+                    and isinstance(st.value.func, ast.Attribute) and st.value.func.attr in helpers \
+                    and isinstance(st.value.func.value, ast.Name) and st.value.func.value.id == 'self' \
+                    and all(x.value is None for s_ in helpers[st.value.func.attr][2] for x in ast.walk(s_) if isinstance(x, ast.Return)) \
+                    and not any(isinstance(x, (ast.Yield, ast.YieldFrom)) for x in ast.walk(host)):
+                st = ast.copy_location(ast.Return(value=st.value), st)
             if isinstance(st, ast.Return) and isinstance(st.value, ast.Call) and isinstance(st.value.func, ast.Attribute) \
                     and st.value.func.attr in helpers and isinstance(st.value.func.value, ast.Name) and st.value.func.value.id == 'self':
                 name = st.value.func.attr
@@ -1664,4 +1671,12 @@ class _Reflect(ast.NodeTransformer):
 
 
 def normalise(trees: Dict[str, ast.Module]) -> Normaliser:
-    return Normaliser(trees).run()
+    from . import flatten
+    flog: List[str] = []
+    fstats = flatten.flatten(trees, anchor_vocabulary(), flog)
+    nz = Normaliser(trees)
+    for k, v in fstats.items():
+        if v:
+            nz.stats['N0_' + k] = v
+    nz.log.extend(flog[:40])
+    return nz.run()
